@@ -65,14 +65,26 @@ class World(object):
             if self.check.setter_first:
                 # the listener hands its value to the setter (or computes its result) BEFORE the interposed evaluation runs
                 r = default(*a)
-                act()
+                self.interpose(act)
                 return r
-            act()
+            self.interpose(act)
             return default(*a)
         return cb
 
     def plan_depth_ok(self):
         return True
+
+    def interpose(self, act):
+        """run the interposed evaluation - every third time from inside an exception handler of the host's (a cache miss, a failed lookup
+        whose message happens to spell an error code): what the host is handling at that moment is none of the evaluation's business"""
+        self.check.handlers = getattr(self.check, 'handlers', 0) + 1
+        if self.check.handlers % 3:
+            return act()
+        try:
+            raise (ValueError('#N/A') if self.check.handlers % 2 else LookupError('#REF!'))
+        except (ValueError, LookupError):
+            self.check.rec.count('interpositions_from_inside_an_exception_handler')
+            return act()
 
     def run(self, f, plan=None):
         self.count = 0
@@ -140,6 +152,7 @@ class Check(BaseCheck):
                  'A1:B2', 'CF()', 'MAX(CF(1),CF(2),CF(3))+A1', 'CONCATENATE(tagv,A1,CF("x"))', 'SUM(lst,CF(lst))', '1+2*3', 'xa*yb-zed', 'nosuch+A1', 'CF(1)+', 'SUM(1/0,A1)',
                  'IFERROR(A1/0,foo)', 'TEXTJOIN(",",TRUE,tagv,"c",A1)', 'INDEX(lst,2)+foo', 'ROMAN(foo+1990)', 'DATE(2020,1,foo)+A1', 'COUNTIF(B2:C3,">1")+foo', '"a"&foo&"b"&A1',
                  '(foo>A1)+(xa<=yb)+(zed<>1)+(tagv="p1")', 'IF(foo<A1,IF(xa>=yb,1,2),IF(zed=0.5,3,4))', '(A1<B2)&(B2<A1)&(foo=foo)&(tagv<"q")', 'AND(foo>1,A1>=2,xa<>yb)',
+                 'LEFT("abc","x")&foo', 'CODE(1)+A1', 'MID(1,2,3)', 'SQRT(-1)+foo', 'CF(1)+CHAR(-1)',
                  'DATEVALUE("2021-06-01")+foo', 'YEAR("2020-02-29")&tagv', '"2020-03-01"+A1', 'DAYS("2021-03-01","2021-02-01")+foo', 'MONTH("5 May 2020")+xa', 'WEEKDAY("2020-02-29")&tagv',
                  '"2021-01-01">"2020-12-31"', 'HOUR("2020-02-29T13:45:10")+foo', 'DATEVALUE("March 2020")+A1', 'N("2020-07-01"+0)+foo',
                  'YEAR("1999-12-31 23:00 XYZ")+foo', 'HOUR("2020-01-01 10:00 EST")&tagv', 'DATEVALUE("2021-06-01 BST")+A1', 'MONTH("5 May 2020 12:00 QQQ")',
